@@ -144,11 +144,11 @@ def step (d : DS) (op implObs : String) : DS × String × List String :=
     let kind := kvStr toks "kind"
     let vlen := kvNat toks "vlen"
     let body := unhex! (kvStr toks "body")
-    if !chunked ∧ body.length > limit then
+    match httpBodyRead limit (if chunked then none else some body.length) body with
+    | none =>
       (addTag d "branch:http-too-large", "err:toolarge", generic ++
         (if implObs.startsWith "ok" then ["C16 http-read-beyond-limit"] else []))
-    else
-    let data := body.take limit
+    | some data =>
     if kind = "raw" then (addTag d "branch:http-raw", implObs, generic)
     else if data.length < vlen then
       (addTag (addTag d "branch:http-truncated-by-limit") "nontrivial", if status = 200 then "err:decode" else "err:status", generic ++
